@@ -29,6 +29,7 @@ OBLIGATIONS = [
     "VgiVerif.C21.C21_shapes",
     "VgiVerif.C21.C21_closed_set",
     "VgiVerif.C21.C21_status",
+    "VgiVerif.C21.C21_classify",
     "VgiVerif.C21.C21_rejection_is_401",
     "VgiVerif.C21.C21_reason_closed",
     "VgiVerif.C21.C21_nostore",
@@ -61,7 +62,9 @@ TRUSTED = [
 ]
 RULE = (
     "exhaustive: chains of 1..3 (thorough 1..4) scripted leaves x 10 outcome kinds, require_all x gate outcome x inner "
-    "outcome; random: composition trees of depth <= 4 (thorough <= 7), width <= 4, scripted and built-in (bearer, XFCC, "
+    "outcome; the duck-typed vgi_auth_reason attribute in every type/shape (member, str in / outside the set, other case, "
+    "empty, str subclass, int, None, bytes, list, object) x ValueError / PermissionError x 5 positions (bare callback, "
+    "validate= under the real bearer extractor, behind a gate, the gate, inside a chain); random: composition trees of depth <= 4 (thorough <= 7), width <= 4, scripted and built-in (bearer, XFCC, "
     "PEM mTLS, proxy-proof require/allow) leaves and gates, declarations by declare_proxy_headers / attribute / gate "
     "argument, operator-declared headers, proxy_proof_required; per app many requests (behaviour of every callback, "
     "Accept value, credential headers). Bodies: hand-written corpus + generated JSON of every shape (envelopes with "
@@ -161,10 +164,7 @@ def build_exc(L: Any, o: dict) -> BaseException:
     def with_decl(e: BaseException) -> BaseException:
         d = o.get("decl")
         if d is not None:
-            if d.startswith("str:"):  # an attribute that is *not* an AuthReason instance
-                e.vgi_auth_reason = d[4:]  # type: ignore[attr-defined]
-            else:
-                e.vgi_auth_reason = AR(d)  # type: ignore[attr-defined]
+            e.vgi_auth_reason = decl_value(L, d)  # type: ignore[attr-defined]
         return e
 
     if k == "af":
@@ -193,13 +193,58 @@ def build_exc(L: Any, o: dict) -> BaseException:
     raise AssertionError(o)
 
 
+# The duck-typed `vgi_auth_reason` attribute of an exception raised by an authenticator the package does not control, in
+# every type and shape: an AuthReason member (written as its value), a plain str inside the closed set ("str:<value>"),
+# a str outside it (a newer / foreign vocabulary, another case, whitespace, empty), and non-strings.
+DECLS: list[str | None] = (
+    [None] + ["missing_credential", "invalid_credential", "expired_credential", "insufficient_scope", "proxy_required",
+              "unauthorized"]
+    + ["str:" + v for v in ("expired_credential", "missing_credential", "proxy_required", "unauthorized")]
+    + ["str:token_revoked", "str:tenant_suspended", "str:EXPIRED_CREDENTIAL", "str:Missing_Credential", "str:",
+       "str: expired_credential", "str:expired_credential\n", "str:AuthReason.EXPIRED_CREDENTIAL", "str:expired-credential",
+       "str:\u00e9xpired", "str:403"]
+    + ["int:42", "int:0", "none:", "obj:", "bytes:expired_credential", "list:expired_credential", "bool:", "float:", "strsub:token_revoked",
+       "strsub:expired_credential"]
+)
+
+
+def decl_value(L: Any, d: str) -> Any:
+    AR = L.un.AuthReason
+    kind, _, rest = d.partition(":")
+    if _ == "":
+        return AR(d)  # a member
+    if kind == "str":
+        return rest
+    if kind == "strsub":  # a str subclass that is not an AuthReason
+
+        class Code(str):
+            pass
+
+        return Code(rest)
+    if kind == "int":
+        return int(rest)
+    if kind == "none":
+        return None
+    if kind == "bytes":
+        return rest.encode()
+    if kind == "list":
+        return [AR(rest)]
+    if kind == "bool":
+        return True
+    if kind == "float":
+        return 1.5
+    return object()
+
+
 def exc_to_model(L: Any, e: BaseException | None) -> dict:
     """What actually happened, in the model's vocabulary (class family + the attributes the code reads)."""
     if e is None:
         return {"k": "ok"}
     AR = L.un.AuthReason
-    decl = getattr(e, "vgi_auth_reason", None)
-    decl = s2j(decl.value) if isinstance(decl, AR) else None
+    a = getattr(e, "vgi_auth_reason", None)
+    # null = no attribute / None, {"m": value} = an AuthReason member, {"s": text} = any other str, {"o": 1} = anything else
+    decl = (None if a is None else {"m": s2j(a.value)} if isinstance(a, AR) else {"s": s2j(desurrogate(str.__str__(a)))}
+            if isinstance(a, str) else {"o": 1})
     if isinstance(e, L.un.AuthFailure):
         text = str(e)
         return {"k": "af", "r": s2j(e.reason.value), "d": s2j("" if text == e.reason.value else text)}
@@ -232,6 +277,15 @@ def build_auth(L: Any, t: dict, st: State) -> Any:
         real = None
         if impl == "bearer":
             real = L.H.bearer_authenticate_static(tokens={"good": L.CTX})
+        elif impl == "bearerv":  # the real bearer extractor around a third-party `validate` whose behaviour is scripted
+
+            def validate(token: str) -> Any:
+                o = st.rho.get(("leaf", i))
+                if o is not None and o["k"] != "ok":
+                    raise build_exc(L, o)
+                return L.CTX
+
+            real = L.H.bearer_authenticate(validate=validate)
         elif impl == "xfcc":
             real = L.H.mtls_authenticate_xfcc()
         elif impl == "mtls":
@@ -310,7 +364,7 @@ def model_tree(L: Any, t: dict) -> dict:
     k = t["k"]
     if k == "leaf":
         impl = t.get("impl", "script")
-        if impl == "bearer":
+        if impl in ("bearer", "bearerv"):
             h: list[str] = []
         elif impl == "xfcc":
             h = raw_decl(L.H.mtls_authenticate_xfcc())
@@ -701,9 +755,9 @@ def gen_outcome(rng: Any, mode: str, gate: bool = False) -> dict:
             return {"k": "ok", "unverified": True} if rng.random() < 0.2 else {"k": "ok"}
         if x < 0.86:
             return {"k": "pe", "cls": rng.choice(["ProofError", "PermissionError", "MyPE"]), "s": rng.choice(["no", "", None]),
-                    "decl": rng.choice([None, None, "proxy_required", "missing_credential"])}
+                    "decl": rng.choice([None, None, "proxy_required", "missing_credential"] + DECLS)}
         if x < 0.92:
-            return {"k": "ve", "s": "gate raised ValueError", "decl": rng.choice([None, "missing_credential"])}
+            return {"k": "ve", "s": "gate raised ValueError", "decl": rng.choice([None, "missing_credential"] + DECLS)}
         if x < 0.97:
             return {"k": "un", "n": rng.choice([0, 1, 5, 30]), "d": rng.choice(["", "sidecar down"])}
         return {"k": "other", "cls": rng.choice(["RuntimeError", "KeyError"])}
@@ -718,12 +772,12 @@ def gen_outcome(rng: Any, mode: str, gate: bool = False) -> dict:
     if x < 0.62:
         return {"k": "ve", "cls": rng.choice(["ValueError", "ValueError", "MyVE", "UnicodeDecodeError", "JSONDecodeError"]),
                 "s": rng.choice([None, "", "bad", "na\u00efve"]),
-                "decl": rng.choice([None, None, None, "missing_credential", "expired_credential", "str:expired_credential"])}
+                "decl": rng.choice([None] * 8 + ["missing_credential"] * 3 + DECLS)}
     if x < 0.72:
         return {"k": "ok"}
     if x < 0.84:
         return {"k": "pe", "cls": rng.choice(["PermissionError", "MyPE", "ProofError"]), "s": rng.choice([None, "", "denied"]),
-                "decl": rng.choice([None, None, "insufficient_scope", "missing_credential", "str:proxy_required"])}
+                "decl": rng.choice([None] * 8 + ["insufficient_scope", "missing_credential"] + DECLS)}
     if x < 0.93:
         return {"k": "un", "n": rng.choice([0, 1, 5, 30, 120]), "d": rng.choice(["", "introspection endpoint timed out"])}
     return {"k": "other", "cls": rng.choice(["RuntimeError", "KeyError", "TypeError", "OSError", "LookupError", "FileNotFoundError",
@@ -749,8 +803,8 @@ def gen_tree(rng: Any, d: int, force: bool, counter: list[int], builtins: bool) 
 
     if d <= 1 or (not force and rng.random() < 0.3):
         if builtins and rng.random() < 0.3:
-            impl = rng.choice(["bearer", "xfcc", "mtls"])
-            t = {"k": "leaf", "id": nid(), "impl": impl, "direct": rng.random() < 0.25}
+            impl = rng.choice(["bearer", "bearerv", "xfcc", "mtls"])
+            t = {"k": "leaf", "id": nid(), "impl": impl, "direct": impl != "bearerv" and rng.random() < 0.25}
             if impl == "mtls":
                 t["header"] = rng.choice(["X-SSL-Client-Cert", "X-Client-Cert"])
             return t
@@ -777,13 +831,13 @@ def gen_request(rng: Any, tree: dict | None) -> dict:
     headers: dict[str, str] = {}
     if tree is not None:
         for n in nodes(tree):
-            if n["k"] == "leaf" and n.get("impl", "script") == "script":
+            if n["k"] == "leaf" and n.get("impl", "script") in ("script", "bearerv"):
                 rho.append(["leaf", n["id"], gen_outcome(rng, mode)])
             elif n["k"] != "leaf" and n.get("gimpl", "script") == "script":
                 rho.append(["gate", n["id"], gen_outcome(rng, mode, gate=True)])
         impls = {n.get("impl") or n.get("gimpl") for n in nodes(tree)}
-        if "bearer" in impls:
-            v = rng.choice([None, None, "Bearer good", "Bearer wrong", "Basic abc", "Bearer "])
+        if impls & {"bearer", "bearerv"}:
+            v = rng.choice([None, "Bearer good", "Bearer good", "Bearer wrong", "Basic abc", "Bearer "])
             if v is not None:
                 headers["Authorization"] = v
         if "xfcc" in impls:
@@ -1073,13 +1127,25 @@ def run_units(ctx: Any, L: Any) -> None:
             ctx.fail(case, f"C21:combine-violates-3.1:{impl}", f"codes {[c.value for c in s]} -> {impl}")
     # classify_auth_failure / chain's code on every outcome kind
     outs = [o for o in ALPHABET if o["k"] != "ok"] + [gen_outcome(rng, "mixed") for _ in range(ctx.budget(200, 3000))]
+    for dv in DECLS:  # every type and shape of the duck-typed declaration, on both exception families
+        outs += [{"k": "ve", "cls": "MyVE", "s": "revoked", "decl": dv}, {"k": "ve", "s": None, "decl": dv},
+                 {"k": "pe", "cls": "MyPE", "s": "suspended", "decl": dv}, {"k": "pe", "s": "", "decl": dv}]
     outs = [o for o in outs if o["k"] != "ok"]
     res = d.batch([("C21.classify", {"exc": exc_to_model(L, build_exc(L, o))}) for o in outs])
     for o, r in zip(outs, res):
         e = build_exc(L, o)
         case = {"kind": "unit", "what": "classify", "exc": o}
         ctx.case(case, tags=("unit:classify",))
-        impl = {"reason": L.un.classify_auth_failure(e).value, "str": str(e), "caught": isinstance(e, ValueError)}
+        try:
+            cr = L.un.classify_auth_failure(e)
+        except BaseException as ce:  # runs inside the middleware's except handler: raising there is a 500, not a 401
+            ctx.fail(case, f"C21:classify-raised:{type(ce).__name__}",
+                     f"classify_auth_failure raised {type(ce).__name__}: {str(ce)[:80]} for declared {getattr(e, 'vgi_auth_reason', None)!r}")
+            continue
+        if not isinstance(cr, L.un.AuthReason) or cr.value not in CLOSED:
+            ctx.fail(case, "C21:classify-outside-closed-set", f"classify_auth_failure returned {cr!r}")
+            continue
+        impl = {"reason": cr.value, "str": str(e), "caught": isinstance(e, ValueError)}
         mod = {"reason": j2s(r["reason"]), "str": j2s(r["str"]), "caught": r["caught"]}
         if o["k"] in ("un", "other"):  # never classified, and only an outage's text is ever rendered
             impl.pop("reason"), mod.pop("reason")
@@ -1181,6 +1247,28 @@ def run_compositions(ctx: Any, L: Any) -> None:
         for acc in ACCEPTS:
             run_request(ctx, app, {"rho": [["leaf", 1, o]], "accept": acc, "headers": {}}, notes, tags=("gen:leaf-x-accept",))
     flush_requests(ctx, app)
+    # every type/shape of the duck-typed `vgi_auth_reason` x both exception families, at every position a third-party
+    # exception can reach the middleware from: a bare callback, a `validate=` under the real bearer extractor, the
+    # credential behind a gate, the gate itself, a PermissionError propagating through a chain, and (caught) in a chain
+    shapes = [
+        ({"k": "leaf", "id": 1, "h": []}, "leaf"),
+        ({"k": "leaf", "id": 1, "impl": "bearerv"}, "leaf"),
+        ({"k": "req", "id": 2, "h": [], "inner": {"k": "leaf", "id": 1, "h": []}}, "leaf"),
+        ({"k": "gate", "id": 1, "h": ["VGI-Proxy-Proof"]}, "gate"),
+        ({"k": "chain", "m": [{"k": "leaf", "id": 2, "h": []}, {"k": "leaf", "id": 1, "h": []}]}, "leaf"),
+    ]
+    for tree, kind in shapes:
+        app = App(L, tree, None, False)
+        notes = set()
+        for j, dv in enumerate(DECLS):
+            for o in ({"k": "ve", "cls": "MyVE", "s": "token revoked", "decl": dv}, {"k": "pe", "cls": "MyPE", "s": "tenant suspended", "decl": dv},
+                      {"k": "ve", "s": None, "decl": dv}):
+                rho = [[kind, 1, o]]
+                if tree["k"] == "chain":
+                    rho.append(["leaf", 2, {"k": "af", "r": "missing_credential", "d": ""}])
+                run_request(ctx, app, {"rho": rho, "accept": ACCEPTS[j % 4], "headers": {"Authorization": "Bearer x"}}, notes,
+                            tags=("gen:declared-shapes",))
+        flush_requests(ctx, app)
     app = App(L, None, ["X-A"], True)
     run_request(ctx, app, {"rho": [], "accept": None, "headers": {}}, set(), tags=("gen:no-authenticator",))
     flush_requests(ctx, app)
